@@ -188,12 +188,12 @@ def run(ck):
     else:
         N = ck.pick(3, 4)
         ck.laws("Incremental_Laws", cfg_text=f"CONSTANT N = {N}\nCONSTANT N2 = 2\n", label=f"Laws:Incremental_Laws N={N}",
-                workers=4, timeout=800)
+                workers=4, timeout=ck.pick(1500, 10800))
         nmc = ck.pick(3, 4)
         ck.mc("Incremental_MC", cfg_text=f"SPECIFICATION Spec\nCONSTANT N = {nmc}\nCONSTRAINT Bound\n" +
-              "".join(f"INVARIANT {i}\n" for i in INVS), workers=4, timeout=800, label=f"MC:Incremental_MC N={nmc}")
+              "".join(f"INVARIANT {i}\n" for i in INVS), workers=4, timeout=ck.pick(1500, 10800), label=f"MC:Incremental_MC N={nmc}")
         ck.exhaustive = True
-        streams = ck.export("Incremental_Export", cfg_text=f"CONSTANT N = {N}\n", timeout=600)
+        streams = ck.export("Incremental_Export", cfg_text=f"CONSTANT N = {N}\n", timeout=ck.pick(1500, 10800))
         cases = []
         for s in streams:
             for env in ENVS:
@@ -237,7 +237,7 @@ def run(ck):
     STEP = 30000
     for lo in range(0, len(events), STEP):
         chunk = events[lo:lo + STEP]
-        for v in ck.trace("Incremental_Trace", chunk, label=f"Trace:Incremental_Trace[{lo}:{lo + len(chunk)}]", timeout=1500):
+        for v in ck.trace("Incremental_Trace", chunk, label=f"Trace:Incremental_Trace[{lo}:{lo + len(chunk)}]", timeout=ck.pick(1500, 10800)):
             e = events[v["tid"]]
             case = cases[owner[v["tid"]]]
             detail = dict(case=case, kind=e["ev"])
